@@ -29,6 +29,8 @@ type Contract struct {
 	Lets     []*LetClause
 	NoInline bool
 	Appends  []*Clause // slices whose spare capacity this function is declared to own
+	GhostArgs []*GhostArg
+	SumNonneg bool // opt-in: the non-negativity lemma of folds
 	HeapFacts bool // opt-in: quantified well-typed-heap axioms and operand-side append facts
 	HeapFactTypes []string // optional: only the heaps of these types get the axioms
 	Entry    []*EntryGhost
@@ -106,8 +108,16 @@ var clauseKeywords = map[string]bool{
 	"func": true, "extern": true, "props": true, "requires": true, "ensures": true,
 	"loop": true, "modifies": true, "ghost": true, "safety": true, "pure": true,
 	"pred": true, "ghostvar": true, "at": true, "trusted": true, "may_panic": true,
-	"let": true, "specfun": true, "axiom": true, "noinline": true, "heapfacts": true, "appends": true, "end": true,
+	"let": true, "specfun": true, "axiom": true, "noinline": true, "sumnonneg": true, "heapfacts": true, "appends": true, "end": true,
 	"entry": true, "modset": true, "exit": true, "global": true, "assumed": true, "alloc_limit": true,
+}
+
+// GhostArg: a caller-side instantiation of a callee's ghost parameter.
+type GhostArg struct {
+	Callee string
+	N      int
+	Name   string
+	Clause *Clause
 }
 
 // EntryGhost is a ghost assignment executed when the function is entered.
@@ -301,7 +311,25 @@ func parseContracts(path string) (*Contracts, error) {
 				cur.Pure = true
 			case "noinline":
 				cur.NoInline = true
+			case "sumnonneg":
+				cur.SumNonneg = true
 			case "heapfacts":
+				// optional leading [Cxx,Cyy]: only in the checks of those properties
+				txt := strings.TrimSpace(r.text)
+				if strings.HasPrefix(txt, "[C") {
+					if j := strings.Index(txt, "]"); j > 0 {
+						on := checkProp == ""
+						for _, p := range strings.Split(txt[1:j], ",") {
+							if strings.TrimSpace(p) == checkProp {
+								on = true
+							}
+						}
+						if !on {
+							break
+						}
+						r.text = txt[j+1:]
+					}
+				}
 				cur.HeapFacts = true
 				for _, t := range strings.Split(r.text, ",") {
 					if t = strings.TrimSpace(t); t != "" {
@@ -417,6 +445,26 @@ func parseContracts(path string) (*Contracts, error) {
 			case "at":
 				// at call <callee>#<n> assert <expr>
 				fs := strings.SplitN(r.text, " ", 4)
+				if len(fs) == 4 && fs[0] == "call" && fs[2] == "ghost" {
+					// at call <callee>#<n> ghost <name> = <expr>: the value the caller
+					// supplies for a ghost parameter of the callee's lemma-style contract
+					callee := fs[1]
+					n := 0
+					if i := strings.LastIndex(callee, "#"); i >= 0 {
+						n, _ = strconv.Atoi(callee[i+1:])
+						callee = callee[:i]
+					}
+					eq := strings.SplitN(fs[3], "=", 2)
+					if len(eq) != 2 {
+						return nil, fmt.Errorf("%s:%d: at call <callee>#<n> ghost <name> = <expr>", path, r.line)
+					}
+					cl, err := mkClause(strings.TrimSpace(eq[1]), r.line)
+					if err != nil {
+						return nil, err
+					}
+					cur.GhostArgs = append(cur.GhostArgs, &GhostArg{Callee: callee, N: n, Name: strings.TrimSpace(eq[0]), Clause: cl})
+					continue
+				}
 				if len(fs) < 4 || (fs[0] != "call" && fs[0] != "select") || fs[2] != "assert" {
 					return nil, fmt.Errorf("%s:%d: at call|select <callee>#<n> assert <expr>", path, r.line)
 				}
